@@ -144,7 +144,8 @@ impl Case14 {
             // a diverging run leaves the well-conditioned domain: judge the iterations before that point only
             let ndirs: usize = params.iter().map(|l| l.iter().map(|p| p.1.len()).sum::<usize>()).sum();
             let exact_stack = self.int_data && self.specs.iter().all(|s| matches!(s, LayerSpec::Dense { act: Act::None | Act::Relu, .. } | LayerSpec::Conv { act: Act::None | Act::Relu, .. } | LayerSpec::Flatten));
-            let ill = (ops::kink_count() > kinks && !exact_stack) || !lref.v.is_finite() || !lref.vm.is_finite() || lref.vm > 1e8 || (0..ndirs).any(|i| !lref.dirm(i).is_finite() || lref.dirm(i) > 1e10) || params.iter().any(|l| l.iter().any(|p| p.1.iter().any(|v| v.abs() > 1e4)));
+            let exact_now = exact_stack && params.iter().all(|l| l.iter().all(|p| p.1.iter().all(|v| refmodel::model::is_exact_value(*v)))) && x.vals.iter().all(|v| refmodel::model::is_exact_value(v.v));
+            let ill = (ops::kink_count() > kinks && !exact_now) || !lref.v.is_finite() || !lref.vm.is_finite() || lref.vm > 1e8 || (0..ndirs).any(|i| !lref.dirm(i).is_finite() || lref.dirm(i) > 1e10) || params.iter().any(|l| l.iter().any(|p| p.1.iter().any(|v| v.abs() > 1e4)));
             if ill {
                 info.truncated_at = Some(it);
                 break;
@@ -262,7 +263,7 @@ const LRS: [f64; 6] = [0.5, 0.125, 1.0, 0.03125, -0.25, 0.0];
 pub fn run(ctx: &Ctx) -> i32 {
     let mut st = ctx.run_replays(&dispatch);
     let t = ctx.tier;
-    let (total, max_iters, max_batch) = t.pick((2500u64, 5usize, 3usize), (60000, 20, 5));
+    let (total, max_iters, max_batch) = t.pick((12000u64, 5usize, 3usize), (200000, 20, 5));
     let strat = move || {
         (
             any::<[u8; 8]>(),
